@@ -14,6 +14,7 @@ CLAUSES = {"1": "a user callback ran twice, or for an operation that was not sta
            "3": "a read completed with something else than the next message the peer sent",
            "4": "a write on a healthy transport completed with an error",
            "5": "a callback was dropped: the operation never completed although the transport is healthy and the loop was run",
+           "6": "after AsyncClose a write was accepted, a second Close was queued, or a data frame followed our Close on the wire",
            "panic": "call panicked"}
 ASSUMPTIONS = ["loopback TCP delivers what the peer wrote within 2 ms; the socket is always writable (partial writes only for the large frames)"]
 
@@ -24,6 +25,16 @@ def attrs(o, case):
 
 def settle():
     return ["poll"] * 10 + ["frames"]
+
+
+def close_cases():
+    """AsyncClose with its flush still in the poller: writes and a second close issued in that window must be refused"""
+    cases = []
+    for pre in ([], ["peer 9 41"], ["write 100 3"]):
+        for mid in (["write 101 2"], ["close 201"], ["write 101 2", "close 201", "write 102 1"], ["chain 101 102 2", "write 101 2"]):
+            ops = ["read 1"] + pre + ["close 200"] + mid + ["poll"] * 8 + ["frames"]
+            cases.append(("case settled", ops))
+    return cases
 
 
 def cases_for(rng, q):
@@ -59,6 +70,7 @@ def cases_for(rng, q):
             ops += (["write 100 4"] + pings) if first == "write" else (pings + ["poll", "write 100 4"] + pings)
             ops += ["poll"] * 8 + ["peer 1 5a", "poll", "poll"] + settle()
             cases.append(("case settled", ops))
+    cases += close_cases()
     for _ in range(20 if q else 400):
         ops = ["read 1"]
         rid, wid = 1, 100
